@@ -229,6 +229,19 @@ impl Drop for Window {
     }
 }
 
+/// Copy of the log as it stands (after a window was torn down by unwinding rather than closed).
+pub fn snapshot() -> Trace {
+    let p = log_ptr();
+    if p.is_null() {
+        return Trace { recs: Vec::new(), overflow: false };
+    }
+    let (recs, overflow) = unsafe {
+        let l = &*p;
+        (l.recs[..l.n].to_vec(), l.overflow)
+    };
+    Trace { recs, overflow }
+}
+
 /// Number of records in the current window's log (a position marker).
 pub fn log_pos() -> usize {
     let p = log_ptr();
